@@ -472,6 +472,11 @@ type tNode struct {
 	Lane       int     `json:"lane"`
 }
 
+// multi: the lambda hands its output over in several chunks.
+func (n *tNode) multi() bool {
+	return n.Sub == nil && n.Chunks > 1 && (n.Form == "s" || n.Form == "t") && (n.Out.K == kStr || n.Out.K == kMap)
+}
+
 // eff is the output as the successors see it.
 func (n *tNode) eff() vd {
 	if n.OutputKey != "" {
@@ -1083,8 +1088,14 @@ func (e *buildEnv) build(g *tGraph) (compose.AnyGraph, compileFn, error) {
 			n := &g.Nodes[i]
 			var wn *compose.WorkflowNode
 			_ = addNode(n,
-				func(l *compose.Lambda, o []compose.GraphAddNodeOpt) error { wn = w.AddLambdaNode(n.Key, l, o...); return nil },
-				func(a compose.AnyGraph, o []compose.GraphAddNodeOpt) error { wn = w.AddGraphNode(n.Key, a, o...); return nil })
+				func(l *compose.Lambda, o []compose.GraphAddNodeOpt) error {
+					wn = w.AddLambdaNode(n.Key, l, o...)
+					return nil
+				},
+				func(a compose.AnyGraph, o []compose.GraphAddNodeOpt) error {
+					wn = w.AddGraphNode(n.Key, a, o...)
+					return nil
+				})
 			if wn == nil {
 				return nil, nil, fmt.Errorf("verif: node %s could not be built", n.Key)
 			}
@@ -1641,7 +1652,6 @@ func genNode(r *mon.Rand, p *genP, g *tGraph, depth int, from string, src vd, re
 		if n.Out.K != kStr && n.Out.K != kMap {
 			n.Chunks = 1
 		}
-		n.Out.Multi = n.Chunks > 1 && (n.Form == "s" || n.Form == "t")
 		if r.Prob(p.pRerun) && !nilPlaceholder {
 			switch {
 			case g.State && r.Prob(0.6):
@@ -1652,6 +1662,7 @@ func genNode(r *mon.Rand, p *genP, g *tGraph, depth int, from string, src vd, re
 				n.Rerun, n.Form = "const", mon.PickOne(r, []string{"c", "t"})
 			}
 		}
+		n.Out.Multi = n.multi()
 	}
 	switch {
 	case req.mustMapKey != "":
@@ -1669,7 +1680,8 @@ func genNode(r *mon.Rand, p *genP, g *tGraph, depth int, from string, src vd, re
 		default:
 			inner := n.Out
 			inner.Multi = false
-			n.Out = vd{K: kMap, Key: req.mustMapKey, D: &inner, Multi: n.Chunks > 1 && (n.Form == "s" || n.Form == "t")}
+			n.Out = vd{K: kMap, Key: req.mustMapKey, D: &inner}
+			n.Out.Multi = n.multi()
 		}
 	case r.Prob(p.pOutputKey):
 		n.OutputKey = "o" + strconv.Itoa(r.Intn(3))
@@ -1769,6 +1781,7 @@ func genGraph(r *mon.Rand, p *genP, name, path string, in vd, depth int) *tGraph
 		if j.Out.K != kStr && j.Out.K != kMap {
 			j.Chunks = 1
 		}
+		j.Out.Multi = j.multi()
 		if g.State {
 			j.ReadsState, j.Pre = true, r.Prob(0.3)
 		}
@@ -1916,6 +1929,7 @@ func genWorkflowJoin(r *mon.Rand, p *genP, g *tGraph, in vd, ends []laneOut) tNo
 	if j.Out.K != kStr && j.Out.K != kMap {
 		j.Chunks = 1
 	}
+	j.Out.Multi = j.multi()
 	if g.State {
 		j.ReadsState, j.Pre = true, r.Prob(0.3)
 	}
